@@ -62,8 +62,8 @@ ValsOf == [T \in TB |-> SortedSeq({i \in 1..NG : Holds(T, G[i])})]
 
 \* subsets of the grid used by the operation classes (as index sets)
 MoreIf(S) == IF Rich = 1 THEN S ELSE {}
-CmpSet   == {1, 3, 4, 7, 17, 18, 19, 21, 25, 32, 39, 40, 41, 47, 49, 50, 53, 54, 55, 56}
-            \cup MoreIf({2, 9, 20, 24, 31, 33, 34, 36, 37, 51, 57, 59})
+CmpSet   == {1, 3, 4, 7, 17, 18, 19, 21, 25, 31, 32, 33, 39, 40, 41, 47, 49, 50, 53, 54, 55, 56}
+            \cup MoreIf({2, 9, 20, 24, 30, 34, 36, 37, 51, 57, 59})
 RingSet  == {1, 2, 3, 4, 7, 9, 17, 18, 19, 24, 32, 39, 40, 41, 47, 53, 54, 56}
             \cup MoreIf({5, 15, 20, 25, 31, 35, 38, 44, 49, 55, 57})
 MathSet  == {1, 2, 3, 4, 5, 6, 8, 41, 42, 43, 44, 45, 46, 48, 53, 54, 55, 56}
@@ -130,11 +130,27 @@ EvalType(R) == IF Cls(R) = "float" THEN R ELSE "float64"
 \* the view overflowed / is not the operand any more: nothing is demanded
 Lost(own, x) == (IsInfV(x) /\ ~IsInfV(own)) \/ x.k = "idef"
 
+(* -- modelled known deviations (known_findings.d/C02.json): what the code is known to compute instead.
+      A case carries `dev` next to `exp`; an observation that misses `exp` is the known finding only if it
+      equals `dev` (DESIGN 6.2).  They are printed for every receiver type; the findings name the Real types. *)
+WithDev(c, d) == c @@ [dev |-> d]
+\* Log1pExp, 18 < x <= 33.3: exp(x) + x   (the branch exponentiates the argument, not the negated receiver)
+KnownDeviation_Log1pExp(a) == Add(Exp(a), a)
+InLog1pExpBranch3(v) == v.k = "int" /\ LtV(VI(18), v) /\ LtV(v, VI(34))
+\* LogSmoothMax: the log-scale numerator starts at log 1, i.e. the numerator is 1 too large
+KnownDeviation_LogSmoothMax(s, alpha) ==
+  DivV(Add(One, SumTerms([k \in 1..Len(s) |-> MulV(s[k], Exp(MulV(Q(alpha), s[k])))])),
+       SumTerms([k \in 1..Len(s) |-> Exp(MulV(Q(alpha), s[k]))]))
+\* type-specific ABS on a fresh (non-negative) receiver: the argument itself
+KnownDeviation_ABS(x) == x
+
 (* -- un: Set, Neg, Abs ------------------------------------------------- *)
 EmitUn(op, R) ==
   \A T \in AllTypes : \A p \in 1..Len(ValsOf[T]) :
-    LET v == G[ValsOf[T][p]] IN
-    Emit(Case("un", op, R, <<Arg(T, v)>>, VZero, UnaryExact(op, R, v, View(R, T, v)), ""))
+    LET v == G[ValsOf[T][p]]
+        c == Case("un", op, R, <<Arg(T, v)>>, VZero, UnaryExact(op, R, v, View(R, T, v)), "")
+    IN IF op = "Abs" /\ T = R /\ IsKnown(v) /\ ~IsNaN(v) /\ NegBit(v)
+       THEN Emit(WithDev(c, KnownDeviation_ABS(v))) ELSE Emit(c)
 
 (* -- self: Sign, getters, clones ---------------------------------------- *)
 Getter(B) == CASE B = "int8" -> "GetInt8" [] B = "int16" -> "GetInt16" [] B = "int32" -> "GetInt32"
@@ -154,7 +170,8 @@ EmitSelf(T) ==
 
 (* -- setter: SetInt8 .. SetFloat64 --------------------------------------- *)
 EmitSetter(R) ==
-  \A B \in BaseTypes : \A p \in 1..Len(ValsOf[B]) :
+  /\ Emit(Case("setter", "Reset", R, <<>>, VZero, VZero, ""))
+  /\ \A B \in BaseTypes : \A p \in 1..Len(ValsOf[B]) :
     LET v == G[ValsOf[B][p]] IN
     Emit(Case("setter", Setter(B), R, <<Arg(B, v)>>, VZero, Convert(B, R, v), ""))
 
@@ -170,12 +187,13 @@ Selected(o, R, T1, T2, p, q) ==
   \/ (Hash(o, TIdx(R), TIdx(T1), TIdx(T2), p, q) + Seed) % K = 0
 
 (* -- cmp: Greater, Smaller, Equals (epsilon 1/8) -------------------------- *)
-\* Equals(b, epsilon) is demanded where comparing in the receiver's representation and comparing the
-\* operands' own values say the same (vb: the operand's own value, y: its view)
-EqualsRes(T, x, vb, y) ==
+\* Equals(b, epsilon) is demanded where its three readings agree: comparing in the receiver's
+\* representation (y: the operand's view), comparing the operands' own values (vb), and comparing
+\* both after conversion to float64 (epsilon is a float64)
+EqualsRes(Ta, x, Tb, vb, y) ==
   LET c == Cmp(x, y) IN
   IF c = "na" THEN Undef(x, y)
-  ELSE IF y # vb THEN AnyRes
+  ELSE IF y # vb \/ Convert(Ta, "float64", x) # x \/ Convert(Tb, "float64", vb) # vb THEN AnyRes
   ELSE VBool(c = "eq")     \* distinct grid values differ by >= 1/4
 EmitCmp(Ta) ==
   \A Tb \in AllTypes : \A p \in 1..Len(CmpVals[Ta]) : \A q \in 1..Len(CmpVals[Tb]) :
@@ -185,7 +203,7 @@ EmitCmp(Ta) ==
         a  == <<Arg(Ta, va), Arg(Tb, vb)>>
     IN /\ Emit(Case("cmp", "Greater", "", a, VZero, GreaterRes(va, y), ""))
        /\ Emit(Case("cmp", "Smaller", "", a, VZero, SmallerRes(va, y), ""))
-       /\ Emit(Case("cmp", "Equals", "", a, VRat(1, 8), EqualsRes(Ta, va, vb, y), ""))
+       /\ Emit(Case("cmp", "Equals", "", a, VRat(1, 8), EqualsRes(Ta, va, Tb, vb, y), ""))
 
 (* -- ring: Add Sub Mul Div Min Max ----------------------------------------- *)
 RingExp(op, R, v1, v2, x, y) ==
@@ -226,7 +244,9 @@ EmitMath1(op, R) ==
          \* everybody: inside the domain
          (/\ (Cls(R) = "int" => v.k = "int" /\ (op \in Composite1 => SmallB(v.b) /\ RAbs(ToInt(v.b)) <= 3))
           /\ (IsSpecialOperand(x) \/ Lost(v, x) \/ InDomain1(op, x)))
-         => Emit(Case("math1", op, R, <<Arg(T, v)>>, VZero, Math1Exp(op, R, v, x), ""))
+         => LET c == Case("math1", op, R, <<Arg(T, v)>>, VZero, Math1Exp(op, R, v, x), "")
+            IN IF op = "Log1pExp" /\ InLog1pExpBranch3(v)
+               THEN Emit(WithDev(c, VTerm(KnownDeviation_Log1pExp(X(1))))) ELSE Emit(c)
 
 (* -- math2: Pow, LogAdd, LogSub ---------------------------------------------- *)
 Math2Exp(op, R, v1, v2, x, y) ==
@@ -306,7 +326,9 @@ EmitVec(op, R) ==
          IN \* `dev`: what the code is known to compute instead (known finding Mnorm without the square root);
             \* an observation that misses `exp` is that finding only if it equals `dev`
             IF op = "Mnorm"
-            THEN Emit([base EXCEPT !.g = "vec"] @@ [dev |-> VTerm(KnownDeviation_Mnorm(<< <<X(1), X(2)>>, <<X(3), X(4)>> >>))])
+            THEN Emit(WithDev(base, VTerm(KnownDeviation_Mnorm(<< <<X(1), X(2)>>, <<X(3), X(4)>> >>))))
+            ELSE IF op = "LogSmoothMax"
+            THEN Emit(WithDev(base, VTerm(KnownDeviation_LogSmoothMax(XSeq(0, n), RatOfV(al)))))
             ELSE Emit(base)
 
 (* -- conv / new: conversions and registry constructors ------------------------ *)
